@@ -347,6 +347,47 @@ def with_meta(rnd, params):
     return tuple(out)
 
 
+@core.guarded(None)
+def check_inner_survives_stacking(ctx, prop, fparams, decorate_src):
+    """g = inner(f); h = outer(g): building h must leave g as it was -- same advertised signature, same behaviour on
+    every call shape (a decorated callable may be decorated further any number of times and still be used itself)."""
+    import sigtools
+    rp = dict(workload='mod-inner-survives', fparams=sigs.to_json(fparams), decorators=list(decorate_src))
+    w = {'function': 'def f(%s)' % sigs.render(fparams), 'inner_decorator': decorate_src[-1], 'stacked_on_top_afterwards': decorate_src[:-1]}
+    fn = 'mf%d' % next(_n)
+    src = 'from sigtools import modifiers\n%s\ndef %s(%s): return dict(locals())\n' % (decorate_src[-1], fn, sigs.render(fparams))
+    try:
+        ns = sigs.compile_module(src, tag='vmod')
+    except ValueError:
+        return
+    g = ns[fn]
+    ctx.evaluated()
+    ctx.count('%s.inner_kept_while_stacking' % prop)
+    bp = sigs.shape_key(fparams)
+    sp = oracle.Space.get(sigs.positional_capacity(bp) + 2, set(sigs.names_of(bp)) | {oracle.FOREIGN})
+    before = (str(inspect.signature(g)), str(sigtools.signature(g)), behaviour(g, sp, 0))
+    tops = []
+    for line in reversed(decorate_src[:-1]):
+        try:
+            tops.append(eval(line.lstrip('@'), {'modifiers': ns['modifiers']})(tops[-1] if tops else g))
+        except ValueError:
+            break
+    # a second, separate derivation from the same g
+    try:
+        tops.append(eval(decorate_src[0].lstrip('@'), {'modifiers': ns['modifiers']})(g))
+    except ValueError:
+        pass
+    after = (str(inspect.signature(g)), str(sigtools.signature(g)), behaviour(g, sp, 0))
+    ctx.nontrivial(('inner-survives', sigs.shape_key(fparams), tuple(decorate_src)))
+    if before[:2] != after[:2]:
+        ctx.violation(prop, 'ModifierBoundary', 'stacking-changes-inner-signature', 'decorating a decorated callable further changed what the inner one advertises',
+                      dict(w, before=before[1], after=after[1]), rp)
+    elif before[2] != after[2]:
+        k = next(i for i, (x, y) in enumerate(zip(before[2], after[2])) if x != y)
+        ctx.violation(prop, 'ModifierBoundary', 'stacking-changes-inner-behaviour', 'decorating a decorated callable further changed how the inner one behaves',
+                      dict(w, advertised=before[1], shape=[sp.shapes[k][0], sorted(sp.shapes[k][1])], before=repr(before[2][k])[:200], after=repr(after[2][k])[:200]), rp)
+
+
 def run_c12(ctx):
     tier = ctx.tier
     rnd = ctx.rng('mod')
@@ -369,8 +410,12 @@ def run_c12(ctx):
                 check_case(ctx, 'C12', fp, deco, mk, mp, adm, method=method)
                 if not method and adm and rnd.random() < 0.3:
                     check_case(ctx, 'C12', fp, deco, mk, mp, adm, method=False, reuse=True)
+                if not method and adm and len(deco) >= 2:
+                    check_inner_survives_stacking(ctx, 'C12', fp, deco)
 
 
 def replay(ctx, rec, prop='C12'):
+    if rec.get('workload') == 'mod-inner-survives':
+        return check_inner_survives_stacking(ctx, prop, sigs.from_json(rec['fparams']), rec['decorators'])
     check_case(ctx, prop, sigs.from_json(rec['fparams']), rec['decorators'], set(rec['make_kwo']),
                set(rec['make_po']), rec['admissible'], method=rec['method'], reuse=rec.get('reuse', False))
